@@ -566,6 +566,8 @@ class SymbolValue(Value):
         if symbol.is_numeric():
             return NumericValue(symbol.int)
 
+        raise ValueError("[{}] does not have a value".format(self.value))
+
     def is_8_bit(self):
         return False
 
